@@ -534,6 +534,8 @@ func runHistory(hs *histSpec) ([]histScan, error) {
 		hsn := histScan{Spec: es, Obs: obs}
 		if !ok {
 			hsn.Skipped = why
+		} else if time.Since(time.Unix(baseSec, 0)) > slowLimit(es)+time.Second {
+			hsn.Skipped = "slow scan: the real clock ran away from the scan's second (machine under load)"
 		}
 		out = append(out, hsn)
 		h.canonStamps(baseSec)
